@@ -1,5 +1,7 @@
 import PcbV.Lemmas.VideoWalk
 import PcbV.Lemmas.VideoT6
+import PcbV.Gen.Translated
+import PcbV.Lemmas.PyIntLemmas
 /-
   C34 — video memory reflects and controls the screen content.
 
@@ -299,5 +301,86 @@ example : getMemory m9 4 t6Scr 0xB9FFD 8 = bytewiseGet m9 4 t6Scr 0xB9FFD 8 := b
 example : peek m9 4 (setMemory m9 4 t6Scr 0xB8003 [0xA5, 0x3C, 0x81]) 0xB8004 = 0x3C := by decide
 example : (setMemory m9 4 t6Scr 0xB9FFD [1, 2, 3, 4, 5]).pix 0 1 7 =
     (bytewiseSet m9 4 t6Scr 0xB9FFD [1, 2, 3, 4, 5]).pix 0 1 7 := by decide
+
+/-! ### tie to the source: address → (page, x, y) of the graphics memory mappers
+
+`PcbV.Gen.Translated.cgaCoords* / egaCoords* / tandy6Coords* / coordOk` are regenerated from the Python
+AST of `CGAMemoryMapper._get_coords`, `EGAMemoryMapper._get_coords`, `Tandy6MemoryMapper._get_coords`
+(one definition per component of the returned tuple; `divmod` = `Int.fdiv`/`Int.fmod`; the mapper
+attributes are parameters) and of `GraphicsMemoryMapper._coord_ok` (gen/tables_py2lean.py).  The theorems
+say that `coordsCGA`, `coordsEGA`, `coordsTandy6`, `coordOk` of the model are that code for every mode
+record with a positive page size (the real code raises ZeroDivisionError otherwise) and every address,
+including addresses below the video segment (negative relative address, floor division). -/
+
+open PcbV.Gen.Translated in
+theorem translated_coords_supported :
+    cgaCoordsPage_supported = true ∧ cgaCoordsX_supported = true ∧ cgaCoordsY_supported = true ∧
+    egaCoordsPage_supported = true ∧ egaCoordsX_supported = true ∧ egaCoordsY_supported = true ∧
+    tandy6CoordsPage_supported = true ∧ tandy6CoordsX_supported = true ∧ tandy6CoordsY_supported = true ∧
+    Gen.Translated.coordOk_supported = true := by decide
+
+/-- every mode of the generated table has a positive page size -/
+theorem translated_pageSize_pos : ∀ m ∈ Gen.Modes.table, 0 < m.pageSize := by decide
+
+/-- the relative address split by the page size: quotient (may be negative) and a natural remainder -/
+theorem page_split (r : Int) (p : Nat) (hp : 0 < p) :
+    Int.fdiv r (p : Int) = r / (p : Int) ∧ Int.fmod r (p : Int) = (((r % (p : Int)).toNat : Nat) : Int) := by
+  have h0 : (0 : Int) ≤ (p : Int) := Int.natCast_nonneg p
+  have h1 : (0 : Int) ≤ r % (p : Int) := Int.emod_nonneg _ (by omega)
+  rw [Int.fdiv_eq_ediv_of_nonneg _ h0, Int.fmod_eq_emod_of_nonneg _ h0]
+  exact ⟨rfl, by omega⟩
+
+open PcbV.Gen.Translated in
+theorem translated_cgaCoords_eq (m : Mode) (addr : Nat) (hp : 0 < m.pageSize) :
+    coordsCGA m addr =
+      ⟨cgaCoordsPage addr m.segment m.pageSize m.bankSize m.bytesPerRow m.bpp m.interleave,
+       (cgaCoordsX addr m.segment m.pageSize m.bankSize m.bytesPerRow m.bpp m.interleave).toNat,
+       (cgaCoordsY addr m.segment m.pageSize m.bankSize m.bytesPerRow m.bpp m.interleave).toNat⟩ := by
+  unfold coordsCGA cgaCoordsPage cgaCoordsX cgaCoordsY rel
+  have hs : ((addr : Int) - (m.segment : Int) * 16) = (addr : Int) - ((m.segment * 16 : Nat) : Int) := by
+    rw [Int.natCast_mul]; rfl
+  simp only [hs]
+  have eight : (8 : Int) = ((8 : Nat) : Int) := rfl
+  obtain ⟨h1, h2⟩ := page_split ((addr : Int) - ((m.segment * 16 : Nat) : Int)) m.pageSize hp
+  simp only [h1, h2, PyIntLemmas.fdiv_natCast, PyIntLemmas.fmod_natCast, ← Int.natCast_mul, ← Int.natCast_add,
+    Int.toNat_natCast, eight]
+
+open PcbV.Gen.Translated in
+theorem translated_egaCoords_eq (m : Mode) (addr : Nat) (hp : 0 < m.pageSize) :
+    coordsEGA m addr =
+      ⟨egaCoordsPage addr m.segment m.pageSize m.bytesPerRow,
+       (egaCoordsX addr m.segment m.pageSize m.bytesPerRow).toNat,
+       (egaCoordsY addr m.segment m.pageSize m.bytesPerRow).toNat⟩ := by
+  unfold coordsEGA egaCoordsPage egaCoordsX egaCoordsY rel
+  have hs : ((addr : Int) - (m.segment : Int) * 16) = (addr : Int) - ((m.segment * 16 : Nat) : Int) := by
+    rw [Int.natCast_mul]; rfl
+  simp only [hs]
+  have eight : (8 : Int) = ((8 : Nat) : Int) := rfl
+  obtain ⟨h1, h2⟩ := page_split ((addr : Int) - ((m.segment * 16 : Nat) : Int)) m.pageSize hp
+  simp only [h1, h2, PyIntLemmas.fdiv_natCast, PyIntLemmas.fmod_natCast, ← Int.natCast_mul, ← Int.natCast_add,
+    Int.toNat_natCast, eight]
+
+open PcbV.Gen.Translated in
+theorem translated_tandy6Coords_eq (m : Mode) (addr : Nat) (hp : 0 < m.pageSize) :
+    coordsTandy6 m addr =
+      ⟨tandy6CoordsPage addr m.segment m.pageSize m.bankSize m.bytesPerRow,
+       (tandy6CoordsX addr m.segment m.pageSize m.bankSize m.bytesPerRow).toNat,
+       (tandy6CoordsY addr m.segment m.pageSize m.bankSize m.bytesPerRow).toNat⟩ := by
+  unfold coordsTandy6 tandy6CoordsPage tandy6CoordsX tandy6CoordsY rel
+  have hs : ((addr : Int) - (m.segment : Int) * 16) = (addr : Int) - ((m.segment * 16 : Nat) : Int) := by
+    rw [Int.natCast_mul]; rfl
+  simp only [hs]
+  have eight : (8 : Int) = ((8 : Nat) : Int) := rfl
+  have four : (4 : Int) = ((4 : Nat) : Int) := rfl
+  have two : (2 : Int) = ((2 : Nat) : Int) := rfl
+  obtain ⟨h1, h2⟩ := page_split ((addr : Int) - ((m.segment * 16 : Nat) : Int)) m.pageSize hp
+  simp only [h1, h2, two, PyIntLemmas.fdiv_natCast, PyIntLemmas.fmod_natCast, eight, four, ← Int.natCast_mul, ← Int.natCast_add,
+    Int.toNat_natCast]
+
+open PcbV.Gen.Translated in
+theorem translated_coordOk_eq (m : Mode) (np : Nat) (c : Coord) :
+    coordOk m np c = Gen.Translated.coordOk c.page c.x c.y np m.width m.height := by
+  unfold VideoMem.coordOk Gen.Translated.coordOk
+  simp [Bool.and_assoc]
 
 end PcbV.C34
